@@ -140,6 +140,12 @@ impl Interp {
     /// Run one step on both sides and apply the oracles. Ok(()) to continue.
     pub fn step(&mut self, idx: usize, s: &Step) -> Result<(), HOutcome> {
         let fail = |kind: &str, at: String, detail: String, st: &HStats| HOutcome::Fail(HFail { kind: kind.to_string(), at, detail }, st.clone());
+        // a run that diverged earlier (e.g. a gradient read that produced nothing) may name handles that do not exist
+        for r in step_refs(s) {
+            if self.m.handles.get(r).map_or(true, |x| x.is_none()) || self.ex.slots.get(r).map_or(true, |x| x.is_none()) {
+                return Err(HOutcome::Discard("the step names a handle that does not exist in this run".into()));
+            }
+        }
         // the model's decision for data-dependent branches, and a guard against undecidable comparisons
         if let Step::IfGt { cond, elem, thr, .. } = s {
             let mv = self.m.node_of(*cond).t.vals[*elem].v;
@@ -202,6 +208,7 @@ impl Interp {
             (Err(RefErr::OutOfDomain(w)), _) => return Err(HOutcome::Discard(w.clone())),
             (Err(RefErr::Refuse(_)), Err(_)) => return Err(HOutcome::Discard("operation refused, as the reference demands".into())),
             (Err(RefErr::Refuse(w)), Ok(())) => return Err(fail("not-refused", op_at(s), format!("step {} {:?} must be refused ({}) but returned", idx, s, w), &self.stats)),
+            (Ok(()), Err(p)) if is_discard(p) => return Err(HOutcome::Discard(p.clone())),
             (Ok(()), Err(p)) => {
                 let kind = if matches!(s, Step::Backward { .. }) { "panic-in-backward" } else { "unexpected-panic" };
                 return Err(fail(kind, op_at(s), format!("step {} ({}) panicked: {}", idx, step_describe(s, &self.m), p), &self.stats));
@@ -487,5 +494,29 @@ pub fn step_describe(s: &Step, m: &RefState) -> String {
         Step::IfGt { cond, elem, thr, target, then_, .. } => format!("if h{}[{}] > {} {{ h{} = {:?}({}) }}", cond, elem, thr, target, then_.op, dims(&then_.args)),
         Step::Backward { h, seed } => format!("backward on {} seed {:?}", dims(&[*h]), seed.as_ref().map(|s| &s[..s.len().min(8)])),
         other => format!("{:?}", other),
+    }
+}
+
+/// handles a step refers to
+pub fn step_refs(s: &Step) -> Vec<usize> {
+    match s {
+        Step::Apply(a) => a.args.clone(),
+        Step::ProbeSole { h } | Step::Flag { h, .. } | Step::Backward { h, .. } | Step::ReadGrad { h } | Step::ClearGrad { h, .. } | Step::Clone { h } | Step::Drop { h } => vec![*h],
+        Step::Rebind { target, spec } => {
+            let mut v = spec.args.clone();
+            v.push(*target);
+            v
+        }
+        Step::IfGt { cond, target, then_, else_, .. } => {
+            let mut v = then_.args.clone();
+            if let Some(e) = else_ {
+                v.extend(e.args.iter())
+            }
+            v.push(*cond);
+            v.push(*target);
+            v
+        }
+        Step::Update { params, .. } => params.clone(),
+        Step::Leaf { .. } => vec![],
     }
 }
